@@ -14,7 +14,7 @@ RULE = ('programs = parents {none, group_by, roll x4, split, time_split(closing)
         'reference interpreter produces for that item (exact order; multiset when an overlapping roll hands one item to '
         'several windows, an order no property fixes), and again at completion. Non-trivial = program with a window/group '
         'parent and an input of >= 2 items; states = distinct (program, outputs-so-far) observations per step.')
-DEEP_PROBES = ('group_by > roll over the whole 6x6 grid with three alternating keys; batch(300), roll(300,300), roll(260,130) step by step; split on equal-but-not-identical predicate values')
+DEEP_PROBES = ('22 dual-mode leaf pipelines (flat_map, tee_map x3, mean/min/max, ...) as plain observables and multiplexed, driven by a Subject and by a cold rx.from_ source (deferred work shows as late outputs); every third nested program on a cold source; group_by > roll over the whole 6x6 grid with three alternating keys; batch(300), roll(300,300), roll(260,130) step by step; split on equal-but-not-identical predicate values')
 ASSUMPTIONS = ['zip/combine_latest over a branch that contains an overlapping roll is excluded (unspecified delivery order '
                'would become visible in tuple values)',
                'multiplexed mode; plain mode only for pipelines without take/first (which complete a plain observable early)']
@@ -132,10 +132,22 @@ def deep_specs():
     return out
 
 
+# dual-mode leaf pipelines for the driver-mode family: plain observable / multiplexed, Subject-driven / cold rx.from_ source
+MODE_LEAVES = [[['map', 'inc']], [['filter', 'even']], [['scan', 'add', '0']], [['count']], [['sum', True]], [['mean']], [['min']],
+               [['max', True]], [['last']], [['to_list']], [['batch', 2]], [['duc']], [['identity']], [['clip', 0, 1]],
+               [['map', 'dup'], ['flat_map']], [['map', 'dup'], ['flat_map'], ['count']], [['map', 'dup'], ['flat_map'], ['to_list']],
+               [['map', 'inc'], ['filter', 'even'], ['scan', 'add', '0']], [['do_action', 'da'], ['count', True]],
+               [['tee_map', 'merge', [['count']], [['last']]]], [['tee_map', 'zip', [['map', 'inc']], [['scan', 'add', '0']]]],
+               [['tee_map', 'combine_latest', [['filter', 'even']], [['count']]]]]
+MODES = [('subject', False), ('cold', False), ('cold', True)]
+
+
 def units(tier):
     progs = programs(tier)
     L = 4 if tier == 'quick' else 5
     out = [{'progs': part, 'L': L} for part in spaces.shard(progs, 400 if tier == 'quick' else 3000)]
+    out.append({'modes': 'leaves', 'L': L})
+    out += [{'modes': 'nested', 'progs': part, 'L': 3} for part in spaces.shard(progs[::3], 16)]
     nd = len(deep_specs())
     out += [{'deep': [i, min(nd, i + 40)]} for i in range(0, nd, 40)]
     return out
@@ -147,11 +159,23 @@ def cases(unit):
         for i in range(*unit['deep']):
             yield {'spec': ds[i][0], 'seq': ds[i][1]}
         return
+    if unit.get('modes') == 'leaves':
+        for leaf in MODE_LEAVES:
+            for driver, mux in MODES:
+                for seq in spaces.sequences([0, 1, 2], unit['L']):
+                    if not mux and not seq and 'last' in harness.opnames(leaf):
+                        continue          # plain RxPY last() raises on an empty source by design
+                    yield {'spec': leaf, 'seq': seq, 'driver': driver, 'mux': mux}
+        return
     for (p1, p2, leaf) in unit['progs']:
         spec = wrap(p1, wrap(p2, leaf))
         if excluded(spec):
             continue
         for seq in spaces.sequences([0, 1, 2], unit['L']):
+            if unit.get('modes') == 'nested':
+                if not ((p1 == 'tsplit_inc' and seq and seq[-1] % 2 == 0) or (p1 == 'tsplit_exc' and seq and seq[0] % 2 == 0)):
+                    yield {'spec': spec, 'seq': seq, 'driver': 'cold', 'mux': True}
+                continue
             # time_split opens windows eagerly; a window that stays empty (stream ends right after an included closing
             # item / starts with an excluded closing item) is not specified by any property: such inputs are left out
             if p1 == 'tsplit_inc' and seq and seq[-1] % 2 == 0:
@@ -161,8 +185,11 @@ def cases(unit):
             yield {'spec': spec, 'seq': seq}
 
 
-def viol(spec, sym, detail):
+def viol(spec, sym, detail, case=None):
     names = harness.opnames(spec)
+    if case is not None and (case.get('driver') or not case.get('mux', True)):
+        sym = '%s[%s,%s]' % (sym, case.get('driver', 'subject'), 'mux' if case.get('mux', True) else 'plain')
+        detail = dict(detail, driver=case.get('driver', 'subject'), mux=case.get('mux', True))
     fam = '+'.join(sorted(set(n for n in names if n in ('group_by', 'roll', 'split', 'time_split', 'tee_map', 'batch')))) or 'leaf'
     return {'signature': 'C11|%s|%s' % (fam, sym), 'detail': detail}
 
@@ -171,7 +198,14 @@ def run_case(case, acc):
     spec, seq = case['spec'], case['seq']
     key = repr(spec)
     acc.programs.add(fast_hash(key))
-    steps, end, sink = harness.run_steps(spec, seq, mux=True)
+    mux = case.get('mux', True)
+    if case.get('driver', 'subject') == 'cold':
+        steps, end, sink = harness.run_steps_cold(spec, seq, mux=mux)
+        acc.count('cold_source_runs')
+    else:
+        steps, end, sink = harness.run_steps(spec, seq, mux=mux)
+    if not mux:
+        acc.count('plain_observable_runs')
     msteps, mend = harness.model_steps(spec, seq)
     acc.evals += 1
     acc.events += len(seq) + 1
@@ -180,9 +214,9 @@ def run_case(case, acc):
     multiset = overlapping_roll(spec)
     sp = harness.status_problem(sink)
     if sp:
-        out.append(viol(spec, sp, {'spec': spec, 'seq': seq, 'error': repr(sink.error)}))
+        out.append(viol(spec, sp, {'spec': spec, 'seq': seq, 'error': repr(sink.error)}, case))
     if sink.before_first_input:
-        out.append(viol(spec, 'emitted-before-any-input-was-consumed', {'spec': spec, 'seq': seq, 'emitted': sink.before_first_input}))
+        out.append(viol(spec, 'emitted-before-any-input-was-consumed', {'spec': spec, 'seq': seq, 'emitted': sink.before_first_input}, case))
     bad = None
     sofar = []
     for t, (a, b) in enumerate(zip(msteps + [mend], steps + [end])):
@@ -204,7 +238,7 @@ def run_case(case, acc):
         else:
             sym = 'outputs-' + str(harness.diff_kind(flat_m, flat_i))
         out.append(viol(spec, sym, {'spec': spec, 'seq': seq, 'first_differing_step': bad,
-                                    'expected_per_step': msteps + [mend], 'observed_per_step': steps + [end]}))
+                                    'expected_per_step': msteps + [mend], 'observed_per_step': steps + [end]}, case))
     acc.outcomes.add(fast_hash(repr((steps, end))))
     if len(seq) >= 2 and len(harness.opnames(spec)) > len([o for o in spec]):
         acc.nontrivial.add(fast_hash(repr(case)))
